@@ -114,4 +114,11 @@ Theorem C03_kernels_generated : forall ov amount profit carry,
   K__CalculatePayoutProfit ov amount = payout_profit ov amount /\
   (PREC < ov -> K__CalculateBetAmountInt ov profit carry = Some (bet_amount_int ov profit carry)).
 Proof. intros. split; [apply gen_CalculatePayoutProfit|apply gen_CalculateBetAmountInt]. Qed.
+(* which side is paid: Bet.SetResult (the loop over the market's winners with its break) IS the won / lost decision of settle_bet *)
+Theorem C03_verdict_generated : forall b mk,
+  K_Bet_SetResult (gb_of b) (gm_of mk) =
+  if negb (k_status mk =? MK_DECLARED) then None
+  else Some (gb_of (bet_with b BS_DECLARED (if zmem (b_odds b) (k_winners mk) then BR_WON else BR_LOST) (b_sheight b))).
+Proof. exact gen_SetResult. Qed.
+Print Assumptions C03_verdict_generated.
 Print Assumptions C03_kernels_generated.
